@@ -87,15 +87,16 @@ CLAIMED = {
             "(VAL mode): join = canonical join at both widths, casts canonical and lossless on reachable pairs",
             "All 49 class pairs and the reachable-pair set are exhaustive; value-level equality is decided on byte-distinct "
             "patterns, which is complete for compositions of reinterpret/zero-extend/wrap. The same casts are executed inside "
-            "C01's variant vectors.",
-            "Trusted: TLC; the meaning of primitive Bitcast names. Per-backend perform_cast emitters are covered only for "
-            "what C05/C10/C14 execute or extract.",
+            "C01's variant vectors, and the Rust and C backends' own emitters (perform_cast) are executed natively on every "
+            "signature of MC_RustExec whose values contain a joined slot (one variant per pair of core types that can share a slot).",
+            "Trusted: TLC; the meaning of primitive Bitcast names. The perform_cast emitters of MoonBit, C#, C++, D and Go are not "
+            "executed (no toolchain in the sandbox).",
             "5 C04"),
     "C18": ("model_checking",
             "TLA+ specs CMHost.tla (Component Model async host rules) + Trace_Async.tla (property monitors); the real Rust async "
             "runtime runs natively against a mock host under scripted user programs; host choices enumerated depth-first and at "
             "random; every recorded run is trace-validated by TLC",
-            "waitable registration: every rt.register/unregister/deliver/cabiwake hook event and every join/cancel/drop built-in is checked against the monitors RegisteredImpliesJoined, LeaveBeforeCancelOrDrop, DeliverExactlyOnce, NoDanglingRegistration, no re-registration across tasks. ~4000 runs / 700k events per quick run; all monitors are evaluated after every event.",
+            "waitable registration: every rt.register/unregister/deliver/cabiwake hook event and every join/cancel/drop built-in is checked against the monitors RegisteredImpliesJoined, LeaveBeforeCancelOrDrop, DeliverExactlyOnce, NoDanglingRegistration, no re-registration across tasks (scenario families in which a stream read / an import call is polled in one task, handed over and polled in another). ~4000 runs / 700k events per quick run; all monitors are evaluated after every event.",
             "Trusted: TLC; the transcription of the Component Model async rules (CMHost.tla); the mock host (checked against "
             "CMHost.tla on every trace, disagreement = tool error); tracer hook placement. Exhaustive only within the per-scenario "
             "DFS bound; interleavings are limited to the scenario families of vlib/async_scen.py.",
@@ -155,7 +156,7 @@ CLAIMED = {
     "C33": ("model_checking",
             "TLA+ spec CheckMode.tla; TLC enumerates all output-directory states over <=3 (thorough 4) generated files; the real "
             "CLI runs --check on each; observations judged by the spec (VAL)",
-            "Every assignment of {same, missing, altered, crlf} to the generated files of 3 (thorough 6) generators, with and "
+            "Every assignment of {same, missing, altered, crlf, truncated, extended, empty} to the generated files of 3 (thorough 6) generators, with and "
             "without an unrelated file; exit status, line-ending diagnosis and a before/after snapshot of the directory are "
             "checked by Conforms in CheckMode.tla.",
             "Trusted: TLC; mtime+sha256 snapshots as the no-write observation; the CLI is built from the working tree.",
@@ -206,9 +207,9 @@ CLAIMED = {
             "TLA+ ResourceOwn.tla: histories of guest- and host-side resource operations (GEN, all histories up to MaxLen) and the monitor "
             "of the handle discipline; the real generated Rust bindings for a fixed resource world run natively against a permissive "
             "logging host, the event log of every history is validated by TLC (Trace_ResourceOwn.tla)",
-            "All 6.4k histories of <= 3 operations (thorough: <= 4) over: imported resource (constructor, method, static, own and borrow "
+            "All 6.7k histories of <= 3 operations (thorough: <= 4) over: imported resource (constructor, method, static, own and borrow "
             "parameters, own handles inside a record, a list, a tuple and an option) and exported resource (constructor, method, own / "
-            "borrow parameters, results x and option<x>, host drop).",
+            "borrow parameters, own parameter taken apart with into_inner, results x and option<x>, host drop).",
             "Trusted: the textual rewrite of the import stubs; a low-address arena so that rep pointers survive the i32 round trip the "
             "bindings make; error-context handles and fallible constructors are not in the fixed world.",
             "12.7"),
